@@ -10,6 +10,7 @@ from . import common as K
 from .c02 import compare_outputs
 
 ID = "C08"
+REACH_TARGETS = [('python.BasicBlock._compile', 'formak.python:BasicBlock._compile'), ('cpp.BasicBlock.compile', 'formak.cpp:BasicBlock.compile')]
 LEVEL = "exploration"
 RULE = ("programs of the feature's target family: 3-6 outputs sharing 2-4 nested sub-terms (depth 3), plus sensors "
         "sharing sub-terms.  py units: the same definition compiled with CSE on and off; Model.model, the three "
